@@ -15,9 +15,9 @@ def fnv(b):
 
 def gen_parts(rnd, boundary):
     parts = []
-    for i in range(rnd.choice([0, 1, 1, 2, 3, 6])):
+    for i in range(rnd.choice([0, 1, 1, 2, 3, 6, 10])):
         is_file = rnd.random() < 0.5
-        n = rnd.choice([0, 1, 10, 100, 1000, 5000, 70000 if is_file else 2000])
+        n = rnd.choice([0, 1, 10, 100, 1000, 5000, (262144 if rnd.random() < 0.1 else 70000) if is_file else 2000])
         kind = rnd.randrange(3)
         if kind == 0:
             content = bytes(rnd.getrandbits(8) for _ in range(min(n, 4000))) * (1 if n <= 4000 else n // 4000)
@@ -69,6 +69,9 @@ def worker(args):
             boundary = bytes(rnd.choice(b"abcdefXYZ0123456789-_'()+,./:=?") for _ in range(rnd.choice([1, 8, 30, 70]))).rstrip(b" ") or b"B"
             parts = gen_parts(rnd, boundary)
             body = encode_multipart(parts, boundary)
+            while len(body) > 500 * 1024:          # the server is configured with multipart_form_data_limit = 512 KiB
+                parts.pop()
+                body = encode_multipart(parts, boundary)
             app = rnd.choice([b"/echo", b"/aecho", b"/upload", b"/rawup"])
             pn = rnd.choice(["http", "scgi", "fastcgi"])
             tok = b"U%d-%d" % (windex, ci)
